@@ -308,6 +308,7 @@ func c14points() map[string]sm2ref.Point {
 func TestVX_C14(t *testing.T) {
 	r := vx.Begin("C14", "mul-public", "ScalarBaseMult: every window value at every window position of the fixed-window layouts (6-3-14-4 always; 4-2-32, 5-3-17, 7-3-12 layouts too in thorough) on zero and seeded backgrounds, all remainder values, 0,1,2,n-1,n,n+1,2^256-1,2^i,2^i-1. ScalarMult: P in {G,-G,2G,-2G,3G,O,seeded x3}, scalar lengths 0,1,2,31,32,33, every nibble value at every nibble position, boundary values. ScalarMixedMult_Unsafe: s=d*2^i and 2^(i+5)-d*2^i for odd d at every i (every signed digit at every position), g from the base alphabet, P chosen so that [g]G and [s]P collide/cancel. After every call the returned point is computed on in place and overwritten, then fixed canary multiples are recomputed (results must not share storage with tables or package constants); the same multiplications with crypto/rand.Reader replaced by sources that deliver all ones / all zero / the bytes of p / of n; failing calls (scalars of length 0,1,16,31,33,40, nil point, nil scalars) each followed by well-formed calls. Oracle sm2ref (math/big Jacobian, validated against affine arithmetic). Shape=(function, layout, position, value, background | point, length, nibble | digit, position, point)")
 	defer r.End()
+	defer implSeamReport(r)
 	i0, _ := vx.Shard()
 	if err := refs.SelfCheck(i0 == 0 && !vx.Replaying()); err != nil {
 		panic("reference self-check failed (harness broken): " + err.Error())
